@@ -144,6 +144,8 @@ class FormatMachine(MachineBase):
 
     def check_canonical(self, text):
         """C08 format rule, by independent code."""
+        if not self.watching("C08"):
+            return
         if self.KIND == "json":
             try:
                 doc = json.loads(text)
@@ -202,7 +204,12 @@ class FormatMachine(MachineBase):
             if not isinstance(e, (TypeError, ValueError)):
                 raise Violation("C06", "C06.wrong_exception_type", "exctype/%s/%s/%s" % (self.FORMAT, why, exc_class(e)),
                                 {"error": exc_class(e), "msg": str(e)[:160], "why": why})
-        if verdict == INVALID or isinstance(e, (TypeError, ValueError)):
+        if after != before and not self.watching("C18"):
+            # not this run's property: just stop trusting what is stored there
+            if path in self.durable:
+                self.durable[path]["clean"] = False
+                self.durable[path]["expected"] = None
+        elif verdict == INVALID or isinstance(e, (TypeError, ValueError)):
             # the dump failed on validation: C18 applies
             self.count("C18", ["real-invalid", self.FORMAT, why, before is None])
             CTX.fault("F2.invalid_value_dump")
